@@ -112,7 +112,25 @@ func main() {
 				}
 				key += fmt.Sprint(progs[t])
 			}
+			// the tree may have served queries before the concurrent ones - unusual ones included (an empty box, k = 0,
+			// a filter that refuses everything): a built tree that has been read is still a built tree
+			prelude := !stmtSeam && c.Bool()
+			key += fmt.Sprint(prelude)
+			warm := func(t *quadtree.Quadtree) {
+				if !prelude {
+					return
+				}
+				empty := orb.Bound{Min: orb.Point{1, 1}, Max: orb.Point{-1, -1}}
+				none := func(orb.Pointer) bool { return false }
+				t.InBound(nil, empty)
+				t.InBoundMatching(make([]orb.Pointer, 0, 2), empty, none)
+				t.KNearest(nil, orb.Point{2, 2}, 0)
+				t.KNearestMatching(nil, orb.Point{9, 9}, 3, none)
+				t.Matching(orb.Point{1, 1}, none)
+				t.Find(orb.Point{-5, -5})
+			}
 			q := l.u.Build(trees[ti])
+			warm(q)
 			if treeFilter != nil {
 				_, nodes, _ := qt.Walk(q)
 				if !treeFilter(nodes) {
@@ -126,6 +144,7 @@ func main() {
 				l.key = key
 				l.want = l.want[:0]
 				q2 := l.u.Build(trees[ti])
+				warm(q2)
 				d2 := qt.Dump(q2)
 				for t := range progs {
 					for _, qi := range progs[t] {
